@@ -110,6 +110,8 @@ def _contract_job(args):
                 if o.expect == 'sat':
                     out['covers'] += 1
                     rr, dt, model = smt.refute_finite(_as_goal_false(o), frun.vc.axioms, bounds, budget['fin_ms'], seed)
+                    if rr not in ('sat', 'unsat'):       # timeout under machine load: one retry with a larger budget and another seed
+                        rr, dt, model = smt.refute_finite(_as_goal_false(o), frun.vc.axioms, bounds, 4 * budget['fin_ms'], seed + 7919)
                     if rr == 'sat':
                         out['covers_sat'] += 1
                     elif rr != 'unsat':
